@@ -37,7 +37,9 @@ Init == /\ kind \in Kinds
         /\ epoch = 0 /\ runs = 0 /\ subs = <<>> /\ notes = <<>> /\ hist = <<>>
 
 Rec(op, arg, res) == [op |-> op, arg |-> arg, res |-> IF (epoch > 0 /\ kind \notin {"fut_ok", "fut_raise"}) /\ op # "reset_unsafe" THEN <<"any">> ELSE res]
-NotifyAll == [i \in 1..Len(subs) |-> notes[i] + 1]
+\* every subscriber still subscribed is notified; a one-shot subscriber has unsubscribed itself after its first
+\* notification, so its count is a lifetime count that stays at 1
+NotifyAll == [i \in 1..Len(subs) |-> IF subs[i] = "once" /\ notes[i] >= 1 THEN notes[i] ELSE notes[i] + 1]
 
 (* after reset_unsafe the property prescribes nothing for objects whose computation cannot be repeated
    (a finished generator, a flushed batch): results are "any" from then on *)
@@ -81,13 +83,14 @@ Set(op, x) == /\ Len(hist) < Depth
 
 Reset == /\ Len(hist) < Depth
          /\ outcome' = None /\ epoch' = epoch + 1 /\ runs' = 0
-         /\ notes' = [i \in 1..Len(subs) |-> 0]
+         /\ notes' = [i \in 1..Len(subs) |-> IF subs[i] = "once" THEN notes[i] ELSE 0]
          /\ hist' = Append(hist, Rec("reset_unsafe", 0, <<"ok">>))
          /\ UNCHANGED <<kind, subs>>
 
-Subscribe(q) == /\ Len(hist) < Depth /\ Len(subs) < 2
+\* q: "good", "bad" (raises an Exception), "once" (unsubscribes itself when notified - the one-shot idiom)
+Subscribe(q) == /\ Len(hist) < Depth /\ Len(subs) < 3
                 /\ subs' = Append(subs, q) /\ notes' = Append(notes, 0)
-                /\ hist' = Append(hist, Rec("subscribe", IF q = "good" THEN 0 ELSE 1, <<"ok">>))
+                /\ hist' = Append(hist, Rec("subscribe", IF q = "good" THEN 0 ELSE IF q = "bad" THEN 1 ELSE 2, <<"ok">>))
                 /\ UNCHANGED <<kind, outcome, epoch, runs>>
 
 (* what every subscriber has seen so far, compared by the harness after each step *)
@@ -99,7 +102,7 @@ Probe == /\ Len(hist) < Depth /\ Len(hist) > 0 /\ hist[Len(hist)].op # "probe"
 
 Next == \/ Value("value") \/ Value("call") \/ Error \/ IsComputed
         \/ \E x \in {1, 2} : Set("set_value", x) \/ Set("set_error", x)
-        \/ Reset \/ Subscribe("good") \/ Subscribe("bad") \/ Probe
+        \/ Reset \/ Subscribe("good") \/ Subscribe("bad") \/ Subscribe("once") \/ Probe
 Spec == Init /\ [][Next]_vars
 
 (* ---- the property, on the model ---- *)
@@ -107,7 +110,7 @@ SingleAssignment ==      \* the outcome changes only from none, or back to none 
   [][outcome' # outcome => (outcome = None \/ (outcome' = None /\ epoch' = epoch + 1))]_vars
 AtMostOneRun == runs <= 1
 NotifiedOncePerCompletion == \A i \in 1..Len(subs) : notes[i] <= 1
-NotifiedOnlyWhenComplete == \A i \in 1..Len(subs) : notes[i] = 1 => outcome # None
+NotifiedOnlyWhenComplete == \A i \in 1..Len(subs) : (notes[i] = 1 /\ subs[i] # "once") => outcome # None
 AllNotified ==           \* a subscriber present at completion has been notified (also next to a raising one)
   [][(outcome = None /\ outcome' # None) => \A i \in 1..Len(subs) : notes'[i] = 1]_vars
 BornComplete == Born(kind) /\ epoch = 0 => outcome # None
